@@ -95,6 +95,9 @@ def build_topology(spec, variant=0):
             rate = sympy.Symbol(f'K_{names[a]}_{names[b]}') + sympy.Symbol('KX')
         elif variant == 3 and j == 1:
             rate = (sympy.Symbol(f'Q_{names[a]}_{names[b]}') + sympy.Symbol('QX')) / sympy.Symbol(f'V_{names[a]}')
+        elif variant == 5 and j == 0:
+            # second-order (binding) flow: the rate depends on the amount of the RECEIVING compartment
+            rate = sympy.Symbol('KON') * sympy.Function(f'A_{names[b]}')(sympy.Symbol('t'))
         elif variant == 4:
             # clearance / volume parameterisation: every flow out of a compartment shares its volume
             rate = sympy.Symbol(f'Q_{min(a, b)}{max(a, b)}') / sympy.Symbol(f'V_{names[a]}')
@@ -544,9 +547,11 @@ def main():
     for n in (2, 3):
         for spec in topologies(n):
             if len(spec['edges']) in (1, 2, 3) and spec['dose'] is not None:
-                for variant in (1, 2, 3, 4):
+                for variant in (1, 2, 3, 4, 5):
                     if variant >= 3 and n == 3 and sum(spec['outs']) != 1:
                         continue        # sum / shared-symbol rates: n = 3 only with exactly one output flow
+                    if variant == 5 and (n == 3 or len(spec['edges']) > 2):
+                        continue        # second-order flows: n = 2 only (region of a known finding)
                     cases.append(('topo', spec, variant))
     n_topo = len(cases)
     _init()
@@ -627,7 +632,8 @@ def main():
     run.bounds = dict(compartments='n<=3 all digraphs x output subsets x dose placement (thorough also n=4 with <=4 '
                                    'flows, seeded order)',
                       variants='one Michaelis-Menten rate; zero-order input; lag time + bioavailability; rates that are sums of '
-                               'parameters (K + KX, (Q + QX)/V); clearance/volume rates sharing symbols between flows',
+                               'parameters (K + KX, (Q + QX)/V); clearance/volume rates sharing symbols between flows; a second-order '
+                               '(binding) flow KON*A_target (n = 2)',
                       histories=f'all op sequences of length <= {depth} from {len(SEEDS)} seeds over {OPS}',
                       outside='n=5,6; histories longer than the bound; conversion back only for systems with <= 4 flows')
     run.assumptions = ['oracle = harness-kept table of declared flows/inputs/doses keyed by compartment name, updated '
